@@ -240,6 +240,11 @@ def run(repo, rep, tier):
     # delivers all later indications must survive any callback outcome
     from .c02 import object_model_handlers_catch_both
     object_model_handlers_catch_both(repo, rep, 'C17.R12')
+    from .c02 import object_model_rejects_only_none
+    object_model_rejects_only_none(repo, rep, 'C17.R13')
+    from .c02 import recursion_depth_is_converted
+    recursion_depth_is_converted(repo, rep, 'C17.R14',
+                                 ('pywbem/_listener.py',))
     from .c16 import delivery_thread_survives
     delivery_thread_survives(repo, rep, rep.rule(
         'C17.R11', 'the delivery thread survives every indication (nothing '
